@@ -746,3 +746,29 @@ fn c07_collision_direct() {
     kani::cover!(loser.is_none() && other_present);
     core::mem::forget(p);
 }
+
+//@ id=C08 tier=quick cap=600
+//@ fn: fsm::Connection::on_keepalive, fsm::Connection::on_update
+//@ bound: KEEPALIVE / UPDATE received in OpenConfirm or Established with ANY negotiated hold time (incl. 0) and ANY other field values; unwind 8
+//@ desc: every KEEPALIVE or UPDATE received (re-)sets the hold timer to the negotiated value - for a negotiated value of 0 that is the SetHoldTimer(0) which makes the driver disarm the 240 s OpenSent timer - and produces nothing else timer-related
+#[kani::proof]
+#[kani::unwind(8)]
+fn c08_rx_rearms_hold_timer() {
+    let mut c = any_connection();
+    let st: bool = kani::any();
+    c.state = if st { State::OpenConfirm } else { State::Established };
+    let neg = c.negotiated_holdtime;
+    let upd: bool = kani::any();
+    kani::assume(!upd || !st); // UPDATE is only legal in Established
+    let out = if upd { c.on_update() } else { c.on_keepalive() };
+    // the number of outputs is checked before any element is read (cheap even if the vector was
+    // built with conditional pushes)
+    assert!(out.len() == if st { 3 } else { 1 });
+    let s = summarize(&out);
+    assert!(s.n_set_hold == 1 && s.set_hold == Some(neg));
+    assert!(s.n_set_ka == 0 && s.session_down == 0);
+    kani::cover!(neg == 0 && st);
+    kani::cover!(neg != 0 && upd);
+    core::mem::forget(out);
+    core::mem::forget(c);
+}
